@@ -252,4 +252,12 @@ def r9_body_scopes(ctx: Ctx) -> None:
     _c08_r1_generator_pairing(ctx)
 
 
-RULES = [r1_if, r2_for, r3_parser_binding, r4_only_the_condition_is_guarded, r5_named_scope_in_iteration, r6_no_capacity_limit_on_scope_log, r7_iteration_scope_replay, r8_assignment_vs_label_lookahead, r9_body_scopes, rb_binding_agreement, rm_no_process_lifetime_results, ru_names_bound]
+def r10_bound_and_condition_values(ctx: Ctx) -> None:
+    """loop bounds and conditions are expressions: their operator precedence and associativity decide the iteration count and the branch taken (C06.R1/R2)"""
+    from .c06 import r1_precedence_order, r2_associativity
+
+    r1_precedence_order(ctx)
+    r2_associativity(ctx)
+
+
+RULES = [r1_if, r2_for, r3_parser_binding, r4_only_the_condition_is_guarded, r5_named_scope_in_iteration, r6_no_capacity_limit_on_scope_log, r7_iteration_scope_replay, r8_assignment_vs_label_lookahead, r9_body_scopes, r10_bound_and_condition_values, rb_binding_agreement, rm_no_process_lifetime_results, ru_names_bound]
